@@ -168,6 +168,8 @@ def _frame(rng, sid, size, env):
 def correspond(ctx, corr, model_ok):
     rng = ctx.rng
     items = []
+    corr.oracle_failures.extend(handler_level_oracle())
+    corr.count('handler level: blocked writer, cancel/error behind a partly written fragmented frame', 24)
     for i in range(ctx.scale(400, 4000)):
         size = rng.choice([64, 64, 65, 100, None])
         lenreq = rng.random() < 0.5
@@ -220,6 +222,14 @@ def correspond(ctx, corr, model_ok):
             corr.disagreements.append(dict(items[si * SHARD + i][1], what='send queue: implementation vs model/SendQueue.v'))
 
 
+def handler_level_oracle():
+    """the same property through the library's own handlers: a blocked writer, a fragmented request partly written, then
+    cancel() / a publisher error queued behind it (real requesters and responders on two real endpoints): per stream
+    the fragment train is not interrupted and CANCEL / ERROR come after everything queued before them"""
+    from harness.props import c08
+    return [dict(f, what='handler level: ' + f['what']) for f in c08.gated_oracle()]
+
+
 def search(ctx, budget_s):
     from harness.common import CorrResult
     c = CorrResult()
@@ -230,6 +240,8 @@ def search(ctx, budget_s):
 def replay(obj):
     import ast
     case = obj['case']
+    if 'gated_case' in case:
+        return bool(handler_level_oracle())
     script = []
     for st in case['script']:
         if st[0] in ('enq', 'prio'):
